@@ -30,7 +30,10 @@ TRUSTED = ["hand-written model HierArc/Model/Lens.lean tied by differential exec
 LEVEL_TEXT = ("Lean theorems over ℝ: displace_prediction is the stated rescaling above the floor, "
               "neutral values, PPN/MST and λ/κ commutation and composition, (λ,κ)≡(λ(1−κ),0); for sharp "
               "hyper-parameters every successful single evaluation hands Ddt·λ(1−κ), Dd(1+γ)/2, μ+Δμ+5log10(λ(1−κ)), "
-              "β, λ with λ=(λ_int|λ_ifu)+αx+βy to the dispatch; the dispatch table is regenerated from the source and "
+              "β, λ with λ=(λ_int|λ_ifu)+αx+βy to the dispatch, and (every evaluation) the SLOPE the configuration determines: "
+              "the lens' own entry of the slope list, the global slope — its mean for the delta-function form and for the "
+              "Gaussian form of zero width — or the isothermal 2 (lens_slope, lens_slope_global_sharp, lens_slope_own); "
+              "the dispatch table is regenerated from the source and "
               "decided (each type exactly one branch; non-DSPL branches read only Ddt, Dd, scaling, σ_sys, magnitude; "
               "DSPL gets β, γ_pl, λ).  The model's own definitions are run against LensLikelihood.hyper_param_likelihood "
               "for all 14 types (arguments reaching the data likelihood, random-draw requests, realised parameters) and "
